@@ -82,10 +82,12 @@ Lemma accepted_k1_shape : shape_k1 (s "0xb3ba") = true /\ int_body (s "0xb3ba") 
 Proof. vm_compute. repeat split. Qed.
 Lemma refuted_hex_e_suffix : lex_one_ok (s "CONSTANT") (s "0x1eu") (s "+1") = false /\ lex_one_ok (s "CONSTANT") (s "0x1eu") (s ";") = true.
 Proof. vm_compute. repeat split. Qed.
-Lemma refuted_hexfloat_empty_part : lex_one_ok (s "CONSTANT") (s "0x1.p3") (s ";") = false /\ lex_one_ok (s "CONSTANT") (s "0x.8p1") (s ";") = false.
+(* the former findings hexfloat-empty-part / hexfloat-hex-suffix (repaired in the source): accepted now *)
+Lemma accepted_hexfloat_empty_part : shape_hexfloat_empty_part (s "0x1.p3") = true /\ shape_hexfloat_empty_part (s "0x.8p1") = true /\
+  lex_one_ok (s "CONSTANT") (s "0x1.p3") (s ";") = true /\ lex_one_ok (s "CONSTANT") (s "0x.8p1") (s ";") = true.
 Proof. vm_compute. repeat split. Qed.
-Lemma refuted_hexfloat_hex_suffix : str_in (s "fi") float_suffixes = true /\ lex_one_ok (s "CONSTANT") (s "0x1.8p3fi") (s ";") = false
-  /\ lex_one_ok (s "CONSTANT") (s "1.5fi") (s ";") = true.
+Lemma accepted_hexfloat_hex_suffix : str_in (s "fi") float_suffixes = true /\ shape_hexfloat_hex_suffix (s "0x1.8p3fi") = true /\
+  lex_one_ok (s "CONSTANT") (s "0x1.8p3fi") (s ";") = true /\ lex_one_ok (s "CONSTANT") (s "1.5fi") (s ";") = true.
 Proof. vm_compute. repeat split. Qed.
 Lemma refuted_ucn : lex_one_ok (s "CHAR_CONST") (qt ++ bsl ++ s "u1234" ++ qt) (s ";") = false
   /\ lex_one_ok (s "STRING") (dq ++ bsl ++ s "u1234" ++ dq) (s ";") = false.
